@@ -60,9 +60,59 @@ def selection_obligations(rep):
                           key=f"P:{oid}", replay={"kind": "obligation", "function": fq, "failed_obligations": [oid], "solver_output": bad}, no_input=True)
 
 
+def combine_selection_obligation(rep):
+    """CompositeEnvelope.combine: a product space is pulled in only under `if <operand> in <product space>.state_objs`, the operand ranging
+    over the caller's operands and the product space over this composite envelope's product spaces."""
+    fq = f"{COMP}::CompositeEnvelope.combine"
+    try:
+        tree, src = D.parse(COMP)
+        fn = dict(D.functions(tree))["CompositeEnvelope.combine"]
+    except Exception as ex:
+        rep.undecided.append(f"{fq}: {ex}")
+        return
+    rep.add_function(fq, COMP, ast.get_source_segment(src, fn) or "", "P (AST: block selection loop)")
+    params = {a.arg for a in fn.args.args} | ({fn.args.vararg.arg} if fn.args.vararg else set())
+    parents = {}
+    for nd in ast.walk(fn):
+        for ch in ast.iter_child_nodes(nd):
+            parents[id(ch)] = nd
+    appends = [nd for nd in ast.walk(fn) if isinstance(nd, ast.Call) and isinstance(nd.func, ast.Attribute) and nd.func.attr in ("append", "extend", "insert")
+               and isinstance(nd.func.value, ast.Name) and nd.func.value.id == "existing_product_states"]
+    bad = []
+    for a in appends:
+        chain = []
+        cur = a
+        while id(cur) in parents:
+            cur = parents[id(cur)]
+            chain.append(cur)
+        ifs = [c for c in chain if isinstance(c, ast.If)]
+        fors = [c for c in chain if isinstance(c, ast.For)]
+        ok = len(ifs) == 1 and len(fors) == 2 and a.func.attr == "append" and len(a.args) == 1 and isinstance(a.args[0], ast.Name)
+        if ok:
+            psv = a.args[0].id
+            t = ifs[0].test
+            ok = (isinstance(t, ast.Compare) and len(t.ops) == 1 and isinstance(t.ops[0], ast.In) and isinstance(t.left, ast.Name)
+                  and ast.unparse(t.comparators[0]) == f"{psv}.state_objs")
+            if ok:
+                sv = t.left.id
+                its = {getattr(f.target, "id", None): ast.unparse(f.iter) for f in fors}
+                ok = its.get(sv) in params and its.get(psv) in ("self.product_states", "self.states")
+        if not ok:
+            bad.append(f"line {a.lineno}: `{ast.unparse(a)[:70]}`")
+    oid = f"{fq}::ensures:pulls-in-exactly-the-product-spaces-holding-an-operand"
+    st = "discharged" if appends and not bad else "failed"
+    rep.add_ob(Obligation(oid, fq, "ensures", "pyvc", st, detail="; ".join(bad) or f"{len(appends)} selection site(s)"))
+    if st != "discharged":
+        rep.violation(f"{fq}: product spaces are pulled into the merge by something other than `operand in space.state_objs`: {'; '.join(bad) or 'no selection found'}",
+                      key=f"P:{oid}", replay={"kind": "obligation", "function": fq, "failed_obligations": [oid], "solver_output": bad}, no_input=True)
+
+
 def run(rep, tier):
     kernels.oracle_self_check(rep)
     selection_obligations(rep)
+    combine_selection_obligation(rep)
+    from vf.pyvc import kronexec
+    kronexec.run_combine(rep)
     kernels.run_generators(rep, ["apply_operator_vector", "apply_operator_matrix", "trace_out_matrix", "measure_matrix"])
     seed = common.seed()
     k = 3 if tier == "quick" else 1
